@@ -125,10 +125,13 @@ def sc_wrapper(d, n, nops, partial, ignore_partial, unique, weights, overrides=T
         if base is not None and hasattr(w, "base_clf_"):
             gb = list(getattr(w.base_clf_, "train_", []))
             d.prove(len(gb) == len(base), "base_model_trained_on_implied_multiset", info=dict(step=step))
+        if hasattr(w, "base_clf_") and hasattr(w, "clf_"):
+            # the stored base model is a separate object: a later in-place update of the current model cannot reach it
+            d.prove(w.base_clf_ is not w.clf_, "base_model_is_a_separate_object", info=dict(step=step, op=op))
     d.witness(True, "ran")
 
 
-def sc_speedup(d, n, fit_idx, pred_idx, weights, nn=None, prior=0.0):
+def sc_speedup(d, n, fit_idx, pred_idx, weights, nn=None, prior=0.0, gamma=0.5):
     from skactiveml.pool.utils import IndexClassifierWrapper
     from skactiveml.classifier import ParzenWindowClassifier
     xs = [d.fl(f"x{i}", lo=-2.0, hi=2.0) for i in range(n)]
@@ -138,12 +141,16 @@ def sc_speedup(d, n, fit_idx, pred_idx, weights, nn=None, prior=0.0):
     sw = d.arr([d.fl(f"w{i}", lo=0.0) for i in range(n)]) if weights else None
     outs = []
     for speed in (False, True):
-        clf = ParzenWindowClassifier(classes=[0.0, 1.0], metric="rbf", metric_dict={"gamma": 0.5}, n_neighbors=nn,
-                                     class_prior=prior)
+        md = {"gamma": gamma}
+        clf = ParzenWindowClassifier(classes=[0.0, 1.0], metric="rbf", metric_dict=md, n_neighbors=nn, class_prior=prior)
         w = IndexClassifierWrapper(clf, X, y, sample_weight=sw, use_speed_up=speed)
         w.precompute(d.arr(fit_idx, dtype=int), d.arr(pred_idx, dtype=int))
         w.fit(d.arr(fit_idx, dtype=int))
         outs.append((w.predict_freq(d.arr(pred_idx, dtype=int)), w.predict_proba(d.arr(pred_idx, dtype=int))))
+        # the wrapped classifier's kernel parameters are the caller's: a symbolic bandwidth ('mean') must still be 'mean'
+        # for the next (re)fit on other samples
+        d.prove(md == {"gamma": gamma} and clf.metric_dict == {"gamma": gamma}, "wrapped_classifier_parameters_unchanged",
+                info=dict(speed_up=speed, metric_dict=repr(md)[:60]))
     d.prove(d.eq_arr(outs[0][0], outs[1][0], 1e-12), "speed_up_same_frequencies")
     d.prove(d.eq_arr(outs[0][1], outs[1][1], 1e-12), "speed_up_same_probabilities")
     if weights:
@@ -192,6 +199,7 @@ def _cfg_speed(tier):
     # every constructor parameter of the wrapped classifier must survive the speed-up (nearest neighbours, prior)
     out.append(dict(n=3, fit_idx=[0, 1, 2], pred_idx=[0, 2], weights=False, nn=1, prior=0.0))
     out.append(dict(n=3, fit_idx=[0, 1, 2], pred_idx=[1], weights=True, nn=2, prior=0.5))
+    out.append(dict(n=3, fit_idx=[0, 1], pred_idx=[2], weights=False, gamma="mean"))
     if tier == "thorough":
         out.append(dict(n=4, fit_idx=[0, 1, 3], pred_idx=[2, 3], weights=True))
         out.append(dict(n=4, fit_idx=[0, 1, 2, 3], pred_idx=[2, 3], weights=True, nn=2, prior=1.0))
